@@ -722,16 +722,27 @@ func (j *judge) txSchedule(tx *TxRec, req *ReqRec, reqTicks []int64, c core.Chan
 		}
 		old := b.I("next_run_time")
 		want, ok := NextOccurrence(old, b.S("cron"))
+		// a cycle that read an earlier incarnation of this id (deleted and re-created since, with the same due
+		// occurrence) advances the new incarnation with the old one's decision: listed finding F21
+		staleKey := ""
+		for _, t := range j.txsBy[tx.ReqId] {
+			if len(t.Cmds) == 1 && t.Cmds[0].Kind == t_aio.ReadSchedules {
+				if sr, ok := t.Pre["schedules"][c.Key]; ok && (sr.I("sort_id") != b.I("sort_id") || sr.I("created_on") != b.I("created_on")) && strings.HasPrefix(tx.ReqId, "SchedulePromises:") {
+					staleKey = "C10:stale-cycle-advances-recreated-schedule"
+				}
+				break
+			}
+		}
 		if tx.Tick < old {
 			j.add("C10", "S1", "", "schedule %s fired at tick %d before its occurrence %d", c.Key, tx.Tick-Base, old-Base)
 		}
 		if !ok || a.I("next_run_time") != want || a.Null("last_run_time") || a.I("last_run_time") != old {
-			j.add("C10", "S1", "", "schedule %s advanced %d -> %d (last %v), want the next occurrence %d with last = %d (skipped or repeated occurrence) (tx#%d %s)", c.Key, old-Base, a.I("next_run_time")-Base, a["last_run_time"], want-Base, old-Base, tx.Seq, tx.ReqId)
+			j.add("C10", "S1", staleKey, "schedule %s advanced %d -> %d (last %v), want the next occurrence %d with last = %d (skipped or repeated occurrence) (tx#%d %s)", c.Key, old-Base, a.I("next_run_time")-Base, a["last_run_time"], want-Base, old-Base, tx.Seq, tx.ReqId)
 		}
 		// S2: the occurrence's promise exists afterwards; created here unless it existed before
 		pid := ExpandTemplate(b.S("promise_id"), c.Key, old)
 		if _, ok := post["promises"][pid]; !ok {
-			key := ""
+			key := staleKey
 			if pid2 := pid; strings.ContainsAny(pid2, "<>&'\"+") {
 				key = "C20:html-escaped-schedule-id"
 			}
